@@ -71,7 +71,7 @@ func genArgString(t *rapid.T, label string) string {
 	return sb.String()
 }
 
-var decoderOptions = []string{"", "", "", "lower", "snake", "simple-as-map", "keep-spaces", "seq-num", "dec-escape", "cast", "no-prefix", "key-prefix", "xmpp"}
+var decoderOptions = []string{"", "", "", "lower", "snake", "simple-as-map", "keep-spaces", "seq-num", "dec-escape", "cast", "cast", "cast-int", "cast-nobool-nofloat", "cast-naninf", "no-prefix", "key-prefix", "xmpp"}
 
 func genC15(t *rapid.T) CaseC15 {
 	c := CaseC15{Clause: rapid.SampledFrom([]string{"bytes", "bytes", "args"}).Draw(t, "clause")}
@@ -86,6 +86,9 @@ func genC15(t *rapid.T) CaseC15 {
 	switch c.Kind {
 	case "xml":
 		g := XGen{Opts: defaultOpts(), MixedText: rapid.Bool().Draw(t, "mixed"), Extras: true, Namespaces: true}
+		if rapid.IntRange(0, 2).Draw(t, "casttexts") == 0 {
+			g.TextGen = genCastText
+		}
 		pristine = []byte(rapid.SampledFrom([]string{"", "", "<?xml version=\"1.0\"?>", "<!-- c -->", "\xef\xbb\xbf", "\n"}).Draw(t, "prolog") + g.Elem(t, 3).String())
 		c.Input = mutateXML(t, pristine)
 		c.Option = rapid.SampledFrom(decoderOptions).Draw(t, "option")
@@ -174,6 +177,13 @@ func applyDecoderOption(opt string) {
 		mxj.SetGlobalKeyMapPrefix("$")
 	case "xmpp":
 		mxj.HandleXMPPStreamTag(true)
+	case "cast-int":
+		mxj.CastValuesToInt(true)
+	case "cast-nobool-nofloat":
+		mxj.CastValuesToFloat(false)
+		mxj.CastValuesToBool(false)
+	case "cast-naninf":
+		mxj.CastNanInf(true)
 	}
 }
 
@@ -212,7 +222,7 @@ func checkC15inner(c CaseC15, info *Info) *Failure {
 		applyDecoderOption(c.Option)
 		info.ClassIf(c.Option != "", "non-default decoder option")
 		acc, why := refAcceptsXML(b)
-		m, err := mxj.NewMapXml(b, c.Option == "cast")
+		m, err := mxj.NewMapXml(b, strings.HasPrefix(c.Option, "cast"))
 		if acc != (err == nil) {
 			return failf("accept-reject-mismatch", "NewMapXml(%q) option %q: the standard tokenizer accepts=%v (%s), mxj error=%v", b, c.Option, acc, why, err)
 		}
@@ -222,7 +232,7 @@ func checkC15inner(c CaseC15, info *Info) *Failure {
 		if err == nil {
 			useMap(m)
 			// the reader forms see the same first document
-			m2, rerr := mxj.NewMapXmlReader(bytes.NewReader(b), c.Option == "cast")
+			m2, rerr := mxj.NewMapXmlReader(bytes.NewReader(b), strings.HasPrefix(c.Option, "cast"))
 			if rerr != nil || !valEqual(map[string]interface{}(m), map[string]interface{}(m2)) {
 				return failf("reader-differs", "NewMapXmlReader(%q) = %v,%v; NewMapXml = %v", b, m2, rerr, m)
 			}
@@ -263,7 +273,7 @@ func checkC15inner(c CaseC15, info *Info) *Failure {
 			fm.Xml()
 		}
 		st, swhy := refSeqOutcome(b)
-		ms, serr := mxj.NewMapXmlSeq(b)
+		ms, serr := mxj.NewMapXmlSeq(b, strings.HasPrefix(c.Option, "cast"))
 		switch st {
 		case "ok":
 			if serr != nil {
